@@ -1101,10 +1101,19 @@ class BlockwiseRequest(BaseUnicastRequest, interfaces.Request):
     ):
         # FIXME this can probably be deduplicated against BlockwiseRequest
 
-        if (
-            initial_response.opt.block2 is None
-            or initial_response.opt.block2.more is False
-        ):
+        if initial_response.opt.block2 is None:
+            return initial_response
+
+        # Unless the application asked for a particular block itself, the
+        # first response has to start at the beginning of the body -- also
+        # when it claims to be the last block.
+        requested_block2 = request_to_repeat.opt.block2
+        expected_start = requested_block2.start if requested_block2 is not None else 0
+        if initial_response.opt.block2.start != expected_start:
+            log.error("Error assembling blockwise response (unexpected first block)")
+            raise error.UnexpectedBlock2()
+
+        if initial_response.opt.block2.more is False:
             initial_response.opt.block2 = None
             return initial_response
 
